@@ -327,7 +327,7 @@ def get_switched_peak_array_indices(values, tol=0.0):
 
     last = peak_values[0]
     new_peak_indices = []
-    peak_values_set = [0]
+    peak_values_set = [peak_values[0]]
     peak_indices_set = [0]
     for i in range(1, len(peak_values)):
         sgn = np.sign(last)
